@@ -275,7 +275,7 @@ impl Env {
     /// C10 (2): saves racing with a writer that flips one key between ("old", no TTL) and
     /// ("new", TTL): a loaded snapshot holding ("old", TTL) or ("new", no TTL) is a pair the key
     /// never had (value read by storage.get, TTL by a later storage.ttl)
-    fn tearstress(&mut self, iters: usize) -> (usize, usize, usize) {
+    fn tearstress(&mut self, iters: usize) -> (usize, usize, usize, usize) {
         use std::sync::atomic::{AtomicBool, Ordering};
         let eng = self.eng.clone();
         let rdb = RdbEngine::new(RdbConfig { filename: "tear.rdb".into(), dir: self.dir.to_string_lossy().to_string(), ..Default::default() });
@@ -284,15 +284,24 @@ impl Env {
         let (e2, s2) = (eng.clone(), stop.clone());
         let _ = eng.set_string(15, b"tear-k".to_vec(), b"old".to_vec());
         let _ = eng.zadd(15, b"tear-z".to_vec(), b"m1".to_vec(), 1.0);
+        // a sorted set whose member m2 exists only while its time to live is the SHORT one: a snapshot
+        // holding m2 beside the long one paired members and a TTL the key never had together (the set is
+        // shared with the save through an Arc: its members used to be read later than its TTL, ec066f0)
+        let _ = eng.zadd(15, b"tear-y".to_vec(), b"m1".to_vec(), 1.0);
+        let _ = eng.expire(15, b"tear-y", Duration::from_secs(200_000));
         let h = std::thread::spawn(move || {
             while !s2.load(Ordering::Relaxed) {
+                let _ = e2.expire(15, b"tear-y", Duration::from_secs(100_000));
+                let _ = e2.zadd(15, b"tear-y".to_vec(), b"m2".to_vec(), 2.0);
+                let _ = e2.zrem(15, b"tear-y", b"m2");
+                let _ = e2.expire(15, b"tear-y", Duration::from_secs(200_000));
                 let _ = e2.set_string(15, b"tear-k".to_vec(), b"old".to_vec());
                 let _ = e2.zadd(15, b"tear-z".to_vec(), b"m2".to_vec(), 2.0);
                 let _ = e2.set_string_ex(15, b"tear-k".to_vec(), b"new".to_vec(), Duration::from_secs(100_000));
                 let _ = e2.zrem(15, b"tear-z", b"m2");
             }
         });
-        let (mut torn, mut runs, mut torn_z) = (0, 0, 0);
+        let (mut torn, mut runs, mut torn_z, mut torn_zt) = (0, 0, 0, 0);
         for _ in 0..iters {
             if rdb.save(&eng).is_err() { continue; }
             for d in 0..16 { let _ = probe.flush_db(d); }
@@ -308,11 +317,14 @@ impl Env {
             let v = probe.get_string(15, b"tear-k").ok().flatten();
             let ttl = probe.ttl(15, b"tear-k").ok().flatten();
             match (v.as_deref(), ttl.is_some()) { (Some(b"old"), true) | (Some(b"new"), false) => torn += 1, _ => {} }
+            let has_m2 = probe.zrange(15, b"tear-y", 0, -1, false).map(|it| it.iter().any(|(m, _)| m == b"m2")).unwrap_or(false);
+            let long = matches!(probe.ttl(15, b"tear-y"), Ok(Some(d)) if d > Duration::from_secs(150_000));
+            if has_m2 && long { torn_zt += 1; }
         }
         stop.store(true, Ordering::Relaxed); let _ = h.join();
-        let _ = eng.delete(15, b"tear-k"); let _ = eng.delete(15, b"tear-z");
+        let _ = eng.delete(15, b"tear-k"); let _ = eng.delete(15, b"tear-z"); let _ = eng.delete(15, b"tear-y");
         let _ = std::fs::remove_file(self.dir.join("tear.rdb"));
-        (torn, runs, torn_z)
+        (torn, runs, torn_z, torn_zt)
     }
 
     /// one op: (rewritten op, output)
@@ -454,8 +466,8 @@ impl Env {
                 // op[2] = number of saves; the observation (torn snapshots, saves) goes into the op:
                 // it depends on the schedule and is judged, not compared
                 let iters = tok_int(&op[2]) as usize;
-                let (torn, runs, torn_z) = self.tearstress(iters);
-                nop.truncate(3); nop.push(Tok::I(torn as i128)); nop.push(Tok::I(runs as i128)); nop.push(Tok::I(torn_z as i128));
+                let (torn, runs, torn_z, torn_zt) = self.tearstress(iters);
+                nop.truncate(3); nop.push(Tok::I(torn as i128)); nop.push(Tok::I(runs as i128)); nop.push(Tok::I(torn_z as i128)); nop.push(Tok::I(torn_zt as i128));
                 vec![i(1)]
             }
             b"PROBE" => {
